@@ -121,62 +121,26 @@ func ruleErrorIffDiagnostic(c *Ctx, r *Report, rule string) {
 			r.bad(rule, name, "function not found", "")
 			continue
 		}
-		// in the function itself or in the module function it ends by calling: a parse step (… *Prog, error) whose
-		// error, when non-nil, is returned with no results
-		ok := false
-		var scan func(d *ast.FuncDecl, depth int)
-		scan = func(d *ast.FuncDecl, depth int) {
-			if d == nil || d.Body == nil || depth > 3 {
-				return
-			}
-			parseErr := map[types.Object]bool{}
-			ast.Inspect(d.Body, func(x ast.Node) bool {
-				if as, isA := x.(*ast.AssignStmt); isA && len(as.Rhs) == 1 && len(as.Lhs) >= 2 {
-					if call, isC := as.Rhs[0].(*ast.CallExpr); isC {
-						if tup, isT := c.typeOf(call).(*types.Tuple); isT && tup.Len() == len(as.Lhs) {
-							first := tup.At(0).Type()
-							if isNamed(first, bclPath, "Prog") || isNamedSlice(first, "Block") {
-								parseErr[c.objOf(as.Lhs[len(as.Lhs)-1])] = true
-							}
-						}
-					}
-				}
-				return true
-			})
-			ast.Inspect(d.Body, func(x ast.Node) bool {
-				rs, isR := x.(*ast.ReturnStmt)
-				if !isR || len(rs.Results) == 0 {
-					return true
-				}
-				if len(rs.Results) == 1 {
-					if call, isC := rs.Results[0].(*ast.CallExpr); isC {
-						if fn, okF := c.callee(call).(*types.Func); okF && fn.Pkg() != nil && fn.Pkg().Path() == bclPath {
-							scan(c.funcDecls[fn], depth+1)
-						}
-						return true
-					}
-				}
-				allNil := true
-				for _, e := range rs.Results[:len(rs.Results)-1] {
-					if !isNilIdent(e) {
-						allNil = false
-					}
-				}
-				last := rs.Results[len(rs.Results)-1]
-				if !allNil || !parseErr[c.objOf(last)] {
-					return true
-				}
-				for _, f := range splitFacts(c.factsAt(d.Body, rs)) {
-					be, isB := stripParens(f.Cond).(*ast.BinaryExpr)
-					if isB && isNilIdent(be.Y) && (be.Op == token.NEQ) == f.Pos && c.isObj(be.X, c.objOf(last)) {
-						ok = true
-					}
-				}
-				return true
-			})
+		// with the parse step (a module function giving (*Prog, error)) — for Unmarshal*: the interpreting step
+		// (giving ([]Block, …, error)) — failing, every interpreted path returns a non-nil error and nil results
+		wantFirst := func(t types.Type) bool { return isNamed(t, bclPath, "Prog") }
+		if strings.HasPrefix(name, "Unmarshal") {
+			wantFirst = func(t types.Type) bool { return isNamedSlice(t, "Block") }
 		}
-		scan(fd, 0)
-		r.check(ok, rule, name, "on error: no results, the error", name+" must return no results together with the error when parsing/interpreting failed", c.pos(fd.Pos()))
+		self, _ := c.find(name)
+		isSource := func(o types.Object) bool {
+			fn, ok := o.(*types.Func)
+			if !ok || fn == self || fn.Pkg() == nil || fn.Pkg().Path() != bclPath {
+				return false
+			}
+			res := fn.Type().(*types.Signature).Results()
+			return res.Len() >= 2 && isErrorType(res.At(res.Len()-1).Type()) && wantFirst(res.At(0).Type())
+		}
+		bad, withRes, n, und := c.errorPropagatesFull(fd, isSource)
+		for _, u := range und {
+			r.undecided(rule, name+"/model", u, c.pos(fd.Pos()))
+		}
+		r.check(len(bad) == 0 && len(withRes) == 0 && n > 0, rule, name, "on error: no results, the error", name+" must return no results together with the error when parsing/interpreting failed: "+strings.Join(append(bad, withRes...), "; "), c.pos(fd.Pos()))
 	}
 }
 
